@@ -319,7 +319,7 @@ pub fn manyframes_case(rng: &mut Rng) -> Case {
 }
 
 pub fn std_subs(ctx: &Ctx, scale_q: u64, scale_t: u64) -> Vec<Sub> {
-    let n = |q: u64, t: u64| ctx.tier.pick(q * scale_q / 100, t * scale_t / 100).max(1);
+    let n = |q: u64, t: u64| ctx.tier.pick(q * scale_q * 3 / 100, t * scale_t * 4 / 100).max(1);
     let big = ctx.tier.pick(30_000, 120_000);
     vec![
         Sub { name: "mix", n: n(1600, 80_000), gen: Box::new(move |r| gen_case(r, &lim(big))) },
@@ -335,7 +335,7 @@ pub fn std_subs(ctx: &Ctx, scale_q: u64, scale_t: u64) -> Vec<Sub> {
 
 pub fn short_sub(ctx: &Ctx) -> Sub {
     // index-driven: every residue 1..=70 x {0,1,2} full blocks
-    let n = ctx.tier.pick(420, 4200);
+    let n = ctx.tier.pick(840, 12_600);
     Sub {
         name: "short_tail",
         n,
@@ -359,7 +359,7 @@ pub fn run_c01(ctx: &Ctx) -> i32 {
     subs.push(short_sub(ctx));
     drive(ctx, subs, &[oracle_c01], &mut out, has_frames);
     // frame-level entry point: assemble frame by frame and decode
-    let n = ctx.tier.pick(500, 20_000);
+    let n = ctx.tier.pick(1500, 60_000);
     run_cases(ctx, "framewise", n, &mut out, |idx, out| {
         let mut rng = Rng::for_case(ctx.seed, "C01.framewise", idx);
         let case = gen_case(&mut rng, &lim(12_000));
@@ -409,7 +409,7 @@ pub fn run_c03(ctx: &Ctx) -> i32 {
     subs.push(short_sub(ctx));
     drive(ctx, subs, &[oracle_c03], &mut out, has_frames);
     // the four delivery variants of one input must state the same STREAMINFO
-    let n = ctx.tier.pick(400, 12_000);
+    let n = ctx.tier.pick(1200, 48_000);
     run_cases(ctx, "variants", n, &mut out, |idx, out| {
         let mut rng = Rng::for_case(ctx.seed, "C03.variants", idx);
         let mut case = gen_case(&mut rng, &Limits { max_samples: 8000, max_blocks: 8, max_block_size: 1024, ..Limits::default() });
@@ -491,7 +491,7 @@ pub fn run_c04(ctx: &Ctx) -> i32 {
         }
     }
     let grid = Arc::new(grid);
-    let reps = ctx.tier.pick(1, 12);
+    let reps = ctx.tier.pick(2, 24);
     let g2 = Arc::clone(&grid);
     let n = (grid.len() as u64) * reps;
     run_cases(ctx, "residues", n, &mut out, |idx, out| {
@@ -558,7 +558,7 @@ pub fn run_c04(ctx: &Ctx) -> i32 {
 
 pub fn run_c09(ctx: &Ctx) -> i32 {
     let mut out = Outcome::default();
-    let n = |q: u64, t: u64| ctx.tier.pick(q, t);
+    let n = |q: u64, t: u64| ctx.tier.pick(q * 3, t * 4);
     let subs = vec![
         Sub { name: "loud", n: n(2500, 120_000), gen: Box::new(|r| loud_case(r, 9000)) },
         Sub { name: "side", n: n(400, 15_000), gen: Box::new(|r| side_case(r, 8000)) },
@@ -568,7 +568,7 @@ pub fn run_c09(ctx: &Ctx) -> i32 {
     ];
     drive(ctx, subs, &[oracle_c09], &mut out, has_frames);
     // frame-level first: count_bits() of hostile frames without serialising anything
-    let nf = ctx.tier.pick(1500, 60_000);
+    let nf = ctx.tier.pick(4500, 240_000);
     run_cases(ctx, "framecount", nf, &mut out, |idx, out| {
         use flacenc::component::BitRepr;
         use flacenc::source::Fill;
@@ -610,7 +610,7 @@ pub fn run_c09(ctx: &Ctx) -> i32 {
 
 pub fn run_c13(ctx: &Ctx) -> i32 {
     let mut out = Outcome::default();
-    let n = |q: u64, t: u64| ctx.tier.pick(q, t);
+    let n = |q: u64, t: u64| ctx.tier.pick(q * 3, t * 4);
     let subs = vec![
         Sub { name: "rice", n: n(1400, 60_000), gen: Box::new(|r| rice_case(r, 40_000)) },
         Sub { name: "loud", n: n(500, 25_000), gen: Box::new(|r| loud_case(r, 9000)) },
@@ -664,7 +664,7 @@ pub fn run_c15(ctx: &Ctx) -> i32 {
     subs.push(short_sub(ctx));
     drive(ctx, subs, &[oracle_c15], &mut out, |_c, _o| true);
     // streams with added unknown metadata blocks and the empty stream
-    let n = ctx.tier.pick(200, 5000);
+    let n = ctx.tier.pick(600, 20_000);
     run_cases(ctx, "metadata", n, &mut out, |idx, out| {
         use flacenc::component::MetadataBlockData;
         let mut rng = Rng::for_case(ctx.seed, "C15.metadata", idx);
